@@ -219,6 +219,12 @@ def _setup_run(E):
         env[name] = empty_snap(E)
     env.update(g_phase=0, g_kbi=False, g_exc=False, g_insend=False, g_cur=0, g_sent=0, g_swept=False, g_swi=0,
                g_w=-1, g_base=0, g_fbase=0, g_s0=E.rd_field(env["self"], "stamp"))
+    # known-finding regions: two boolean names that the demonic send asserts on exactly the paths they describe (a
+    # send of the tick raised something other than StopIteration / a runner raised StopIteration).  A failure is
+    # attributed to a recorded finding only if it disappears when the region is excluded, so a failure of the same
+    # clause on any other path is still a violation.
+    env["g_reg_raise"] = Sym(z3.Bool("region_send_raised"), "bool")
+    env["g_reg_stop"] = Sym(z3.Bool("region_runner_stopped"), "bool")
 
 
 def _havoc_ghost(names):
@@ -298,7 +304,10 @@ def _send(E, tasker, control):
         if phase == 1:
             env["g_sent"] = 2
             env["g_insend"] = False
+            E.assume(env["g_reg_stop"].t)
         raise PyRaise(ExcV(StopIteration, ()))
+    if phase == 1:
+        E.assume(env["g_reg_raise"].t)
     raise PyRaise(ExcV((Exception, KeyboardInterrupt)[k - 2], ("raised by a runner",)))
 
 
@@ -441,6 +450,14 @@ def aborts_in_order(E, f0, fbase):
 
 
 @specfunc
+def is_stopiteration(E, exc):
+    return isinstance(exc, ExcV) and exc.cls is StopIteration
+
+
+is_stopiteration.native = lambda exc: isinstance(exc, StopIteration)
+
+
+@specfunc
 def swept_abort(E, tasker):
     """some event of the sweep (trace positions from g_fbase on) is send(ABORT) to `tasker`"""
     env = E.frame.env
@@ -463,6 +480,10 @@ contract(FS, "Skedder.addReadyTask", "C02", params=dict(self=Ref("Skedder"), tas
 
 contract(FH, "House.orderTaskables", "C02", params=dict(self=Ref("HouseS")), modifies=["self.taskables"],
          ensures=["concat3(self.taskables, self.fronts, self.mids, self.backs)", "fresh(self.taskables)",
+                  # the three blocks start where the statement puts them (quantifier-free instances of the line above)
+                  "implies(len(self.fronts) > 0, self.taskables[0] is self.fronts[0])",
+                  "implies(len(self.mids) > 0, self.taskables[len(self.fronts)] is self.mids[0])",
+                  "implies(len(self.backs) > 0, self.taskables[len(self.fronts) + len(self.mids)] is self.backs[0])",
                   "self.taskables is not self.fronts and self.taskables is not self.mids and "
                   "self.taskables is not self.backs"])
 
@@ -655,13 +676,15 @@ CUT = ["len(L_g_F0) == len(L_g_R0) - L_g_cur - 1 + L_g_k[L_g_cur]",
        "L_g_F0[len(L_g_R0) - L_g_cur - 1 + L_g_k[j]][0] is L_g_R0[j][0]))"]
 RAISER = "implies(L_g_insend, swept_abort(L_g_R0[L_g_cur][0]))"
 EXC_POST = (["implies(L_g_swept, %s)" % c for c in SWEPT] + ["implies(not L_g_swept, %s)" % c for c in PARTIAL] +
-            ["implies(L_g_insend, %s)" % c for c in CUT] + [RAISER])
+            ["implies(L_g_insend, %s)" % c for c in CUT] + [RAISER] +
+            # a runner that stops (StopIteration) is absorbed in the tick and in the sweep: what escapes is never that
+            ["not is_stopiteration(exc)"])
 
 contract(FS, "Skedder.run", "C03", params=RUN_PARAMS, setup=_setup_run, assumes=DISTINCT, dedupe=True,
          ghost=GHOST, loops=_loops("sweep"), modifies=RUN_MODIFIES, frame=False,
          ensures=SWEPT + ["L_g_swept and not L_g_exc"] + ["implies(L_g_insend, %s)" % c for c in CUT] + [RAISER],
          raises={"Exception": EXC_POST, "KeyboardInterrupt": EXC_POST, "SystemExit": EXC_POST},
-         findings={"tasker-send-raised": "True"},
+         findings={"tasker-send-raised": "g_reg_raise"},
          note="[v2] C03: abort sweep on every route (normal, KeyboardInterrupt, exception re-raised); an exception out "
               "of an ABORT send in the sweep escapes and leaves the remaining entries un-aborted (declared in raises: "
               "limitation of the code)")
@@ -674,7 +697,7 @@ contract(FS, "Skedder.run", "C03", params=RUN_PARAMS, setup=_setup_run, assumes=
              # the loop is left by `break` only right after a tick with nothing queued or nothing started / running
              # (or by KeyboardInterrupt)
              "L_g_kbi or (not L_more) or len(L_g_F0) == 0"],
-         raises=ANY_EXC, findings={"runner-stopped": "True"},
+         raises=ANY_EXC, findings={"runner-stopped": "g_reg_stop"},
          note="[v3] C03: the `more` flag and the exit conditions; the queue shape is not carried here (a popleft from an "
               "empty deque is then one more exceptional path, excluded in [v1]/[v2])")
 
